@@ -517,4 +517,216 @@ theorem lineLine_symm (a b c d : Pt) : lineLine a b c d = lineLine c d a b := by
   rw [Bool.eq_iff_iff, lineLine_iff, lineLine_iff]
   constructor <;> rintro ⟨p, h1, h2⟩ <;> exact ⟨p, h2, h1⟩
 
+
+/-! ### rectangles -/
+
+theorem rectCoord_iff (mn mx p : Pt) :
+    rectCoord mn mx p = true ↔ mn.x ≤ p.x ∧ p.x ≤ mx.x ∧ mn.y ≤ p.y ∧ p.y ≤ mx.y := by
+  simp only [rectCoord, Bool.and_eq_true, decide_eq_true_eq, ge_iff_le]
+  tauto
+
+/-- `Rect: Contains<Coord>` is the strict version of `rectCoord`. -/
+theorem rectContainsCoord_iff (mn mx p : Pt) :
+    rectContainsCoord mn mx p = true ↔ mn.x < p.x ∧ p.x < mx.x ∧ mn.y < p.y ∧ p.y < mx.y := by
+  simp only [rectContainsCoord, Bool.and_eq_true, decide_eq_true_eq, gt_iff_lt]
+  tauto
+
+theorem rectContainsCoord_imp_rectCoord (mn mx p : Pt) (h : rectContainsCoord mn mx p = true) :
+    rectCoord mn mx p = true := by
+  rw [rectContainsCoord_iff] at h
+  rw [rectCoord_iff]
+  exact ⟨h.1.le, h.2.1.le, h.2.2.1.le, h.2.2.2.le⟩
+
+theorem rectRect_eq (amn amx bmn bmx : Pt) :
+    rectRect amn amx bmn bmx = true ↔
+      bmn.x ≤ amx.x ∧ bmn.y ≤ amx.y ∧ amn.x ≤ bmx.x ∧ amn.y ≤ bmx.y := by
+  unfold rectRect
+  constructor
+  · intro h
+    split at h
+    · cases h
+    · split at h
+      · cases h
+      · split at h
+        · cases h
+        · split at h
+          · cases h
+          · refine ⟨?_, ?_, ?_, ?_⟩ <;> linarith
+  · rintro ⟨h1, h2, h3, h4⟩
+    rw [if_neg (by linarith), if_neg (by linarith), if_neg (by linarith), if_neg (by linarith)]
+
+/-- `Rect: Intersects<Rect>` on valid rectangles (`min ≤ max` component-wise) decides whether the
+two closed rectangles share a point. -/
+theorem rectRect_iff (amn amx bmn bmx : Pt)
+    (hax : amn.x ≤ amx.x) (hay : amn.y ≤ amx.y) (hbx : bmn.x ≤ bmx.x) (hby : bmn.y ≤ bmx.y) :
+    rectRect amn amx bmn bmx = true ↔
+      ∃ p, rectCoord amn amx p = true ∧ rectCoord bmn bmx p = true := by
+  rw [rectRect_eq]
+  constructor
+  · rintro ⟨h1, h2, h3, h4⟩
+    refine ⟨⟨max amn.x bmn.x, max amn.y bmn.y⟩, ?_, ?_⟩
+    · rw [rectCoord_iff]
+      exact ⟨le_max_left _ _, max_le hax h1, le_max_left _ _, max_le hay h2⟩
+    · rw [rectCoord_iff]
+      exact ⟨le_max_right _ _, max_le h3 hbx, le_max_right _ _, max_le h4 hby⟩
+  · rintro ⟨p, hp, hq⟩
+    rw [rectCoord_iff] at hp hq
+    refine ⟨?_, ?_, ?_, ?_⟩ <;> linarith [hp.1, hp.2.1, hp.2.2.1, hp.2.2.2, hq.1, hq.2.1, hq.2.2.1, hq.2.2.2]
+
+example : rectRect ⟨0, 0⟩ ⟨2, 2⟩ ⟨2, 1⟩ ⟨3, 5⟩ = true := by
+  rw [rectRect_iff _ _ _ _ (by norm_num) (by norm_num) (by norm_num) (by norm_num)]
+  exact ⟨⟨2, 1⟩, by norm_num [rectCoord], by norm_num [rectCoord]⟩
+
+/-! ### triangles -/
+
+/-- `Triangle: Contains<Coord>`: the three edge determinants are strictly of one sign. -/
+theorem triContainsCoord_iff (a b c p : Pt) :
+    triContainsCoord a b c p = true ↔
+      (0 < cross a b p ∧ 0 < cross b c p ∧ 0 < cross c a p) ∨
+      (cross a b p < 0 ∧ cross b c p < 0 ∧ cross c a p < 0) := by
+  have key : ∀ x y z : Ori, ((x == y && x != .col) && (y == z && y != .col)) = true ↔
+      (x = .ccw ∧ y = .ccw ∧ z = .ccw) ∨ (x = .cw ∧ y = .cw ∧ z = .cw) := by
+    intro x y z; cases x <;> cases y <;> cases z <;> decide
+  show ((orient a b p == orient b c p && orient a b p != .col) &&
+        (orient b c p == orient c a p && orient b c p != .col)) = true ↔ _
+  rw [key, orient_ccw_iff, orient_ccw_iff, orient_ccw_iff, orient_cw_iff, orient_cw_iff, orient_cw_iff]
+
+/-- What the sorted-window test of `Triangle: Intersects<Coord>` computes on three orientations:
+"not both a counter-clockwise and a clockwise one". -/
+theorem triWindow_iff (x y z : Ori) :
+    (let (o0, o1, o2) := sort3 x y z
+     !((o0 != o1 && o1 != .col) || (o1 != o2 && o2 != .col))) = true ↔
+      ¬ ((x = .ccw ∨ y = .ccw ∨ z = .ccw) ∧ (x = .cw ∨ y = .cw ∨ z = .cw)) := by
+  cases x <;> cases y <;> cases z <;> decide
+
+/-- `Triangle: Intersects<Coord>`: no two edge determinants have strictly opposite signs. -/
+theorem triCoord_iff (a b c p : Pt) :
+    triCoord a b c p = true ↔
+      ¬ ((0 < cross a b p ∨ 0 < cross b c p ∨ 0 < cross c a p) ∧
+         (cross a b p < 0 ∨ cross b c p < 0 ∨ cross c a p < 0)) := by
+  unfold triCoord
+  rw [triWindow_iff, orient_ccw_iff, orient_ccw_iff, orient_ccw_iff, orient_cw_iff, orient_cw_iff,
+    orient_cw_iff]
+
+/-- the same, as "all weakly of one sign" -/
+theorem triCoord_iff_weak (a b c p : Pt) :
+    triCoord a b c p = true ↔
+      (0 ≤ cross a b p ∧ 0 ≤ cross b c p ∧ 0 ≤ cross c a p) ∨
+      (cross a b p ≤ 0 ∧ cross b c p ≤ 0 ∧ cross c a p ≤ 0) := by
+  rw [triCoord_iff]
+  constructor
+  · intro h
+    by_cases hpos : 0 < cross a b p ∨ 0 < cross b c p ∨ 0 < cross c a p
+    · left
+      refine ⟨?_, ?_, ?_⟩ <;> (by_contra hc; exact h ⟨hpos, by simp only [not_le] at hc; tauto⟩)
+    · right
+      simp only [not_or, not_lt] at hpos
+      exact hpos
+  · rintro (⟨h1, h2, h3⟩ | ⟨h1, h2, h3⟩) ⟨hp, hn⟩
+    · rcases hn with h | h | h <;> linarith
+    · rcases hp with h | h | h <;> linarith
+
+theorem triContainsCoord_imp_triCoord (a b c p : Pt) (h : triContainsCoord a b c p = true) :
+    triCoord a b c p = true := by
+  rw [triContainsCoord_iff] at h
+  rw [triCoord_iff_weak]
+  rcases h with ⟨h1, h2, h3⟩ | ⟨h1, h2, h3⟩
+  · exact Or.inl ⟨h1.le, h2.le, h3.le⟩
+  · exact Or.inr ⟨h1.le, h2.le, h3.le⟩
+
+example : triContainsCoord ⟨0, 0⟩ ⟨4, 0⟩ ⟨0, 4⟩ ⟨1, 1⟩ = true := by
+  rw [triContainsCoord_iff]; left; norm_num [cross]
+
+/-- The point-set specification of the closed triangle (barycentric coordinates). -/
+def TriMem (p a b c : Pt) : Prop :=
+  ∃ u v w : Rat, 0 ≤ u ∧ 0 ≤ v ∧ 0 ≤ w ∧ u + v + w = 1 ∧
+    p.x = u * a.x + v * b.x + w * c.x ∧ p.y = u * a.y + v * b.y + w * c.y
+
+/-- … and of its interior. -/
+def TriInterior (p a b c : Pt) : Prop :=
+  ∃ u v w : Rat, 0 < u ∧ 0 < v ∧ 0 < w ∧ u + v + w = 1 ∧
+    p.x = u * a.x + v * b.x + w * c.x ∧ p.y = u * a.y + v * b.y + w * c.y
+
+theorem cross_sum (a b c p : Pt) : cross b c p + cross c a p + cross a b p = cross a b c := by
+  unfold cross; ring
+
+theorem bary_x (a b c p : Pt) :
+    cross a b c * p.x = cross b c p * a.x + cross c a p * b.x + cross a b p * c.x := by
+  unfold cross; ring
+
+theorem bary_y (a b c p : Pt) :
+    cross a b c * p.y = cross b c p * a.y + cross c a p * b.y + cross a b p * c.y := by
+  unfold cross; ring
+
+private theorem bary_cross {a b c p : Pt} {u v w : Rat} (hs : u + v + w = 1)
+    (hx : p.x = u * a.x + v * b.x + w * c.x) (hy : p.y = u * a.y + v * b.y + w * c.y) :
+    cross b c p = u * cross a b c ∧ cross c a p = v * cross a b c ∧ cross a b p = w * cross a b c := by
+  have hu : u = 1 - v - w := by linarith
+  subst hu
+  refine ⟨?_, ?_, ?_⟩ <;> (unfold cross; rw [hx, hy]; ring)
+
+private theorem bary_witness {a b c p : Pt} (hD : cross a b c ≠ 0) :
+    cross b c p / cross a b c + cross c a p / cross a b c + cross a b p / cross a b c = 1 ∧
+    p.x = cross b c p / cross a b c * a.x + cross c a p / cross a b c * b.x
+            + cross a b p / cross a b c * c.x ∧
+    p.y = cross b c p / cross a b c * a.y + cross c a p / cross a b c * b.y
+            + cross a b p / cross a b c * c.y := by
+  have h1 := cross_sum a b c p
+  have h2 := bary_x a b c p
+  have h3 := bary_y a b c p
+  refine ⟨?_, ?_, ?_⟩
+  · field_simp; linarith
+  · field_simp; linarith
+  · field_simp; linarith
+
+/-- For a non-degenerate triangle `Triangle: Intersects<Coord>` is membership in the closed
+triangle. -/
+theorem triCoord_iff_mem (a b c p : Pt) (hD : cross a b c ≠ 0) :
+    triCoord a b c p = true ↔ TriMem p a b c := by
+  rw [triCoord_iff_weak]
+  obtain ⟨w1, w2, w3⟩ := bary_witness (p := p) hD
+  have hsum := cross_sum a b c p
+  constructor
+  · rintro (⟨h1, h2, h3⟩ | ⟨h1, h2, h3⟩)
+    · have hpos : 0 < cross a b c := lt_of_le_of_ne (by linarith) (Ne.symm hD)
+      exact ⟨_, _, _, div_nonneg h2 hpos.le, div_nonneg h3 hpos.le, div_nonneg h1 hpos.le, w1, w2, w3⟩
+    · have hneg : cross a b c < 0 := lt_of_le_of_ne (by linarith) hD
+      exact ⟨_, _, _, div_nonneg_of_nonpos h2 hneg.le, div_nonneg_of_nonpos h3 hneg.le,
+        div_nonneg_of_nonpos h1 hneg.le, w1, w2, w3⟩
+  · rintro ⟨u, v, w, hu, hv, hw, hs, hx, hy⟩
+    obtain ⟨e1, e2, e3⟩ := bary_cross hs hx hy
+    rw [e1, e2, e3]
+    rcases lt_or_gt_of_ne hD with hneg | hpos
+    · right
+      exact ⟨mul_nonpos_of_nonneg_of_nonpos hw hneg.le, mul_nonpos_of_nonneg_of_nonpos hu hneg.le,
+        mul_nonpos_of_nonneg_of_nonpos hv hneg.le⟩
+    · left
+      exact ⟨mul_nonneg hw hpos.le, mul_nonneg hu hpos.le, mul_nonneg hv hpos.le⟩
+
+/-- For a non-degenerate triangle `Triangle: Contains<Coord>` is membership in the interior. -/
+theorem triContainsCoord_iff_interior (a b c p : Pt) (hD : cross a b c ≠ 0) :
+    triContainsCoord a b c p = true ↔ TriInterior p a b c := by
+  rw [triContainsCoord_iff]
+  obtain ⟨w1, w2, w3⟩ := bary_witness (p := p) hD
+  have hsum := cross_sum a b c p
+  constructor
+  · rintro (⟨h1, h2, h3⟩ | ⟨h1, h2, h3⟩)
+    · have hpos : 0 < cross a b c := by linarith
+      exact ⟨_, _, _, div_pos h2 hpos, div_pos h3 hpos, div_pos h1 hpos, w1, w2, w3⟩
+    · have hneg : cross a b c < 0 := by linarith
+      exact ⟨_, _, _, div_pos_of_neg_of_neg h2 hneg, div_pos_of_neg_of_neg h3 hneg,
+        div_pos_of_neg_of_neg h1 hneg, w1, w2, w3⟩
+  · rintro ⟨u, v, w, hu, hv, hw, hs, hx, hy⟩
+    obtain ⟨e1, e2, e3⟩ := bary_cross hs hx hy
+    rw [e1, e2, e3]
+    rcases lt_or_gt_of_ne hD with hneg | hpos
+    · right
+      exact ⟨mul_neg_of_pos_of_neg hw hneg, mul_neg_of_pos_of_neg hu hneg, mul_neg_of_pos_of_neg hv hneg⟩
+    · left
+      exact ⟨mul_pos hw hpos, mul_pos hu hpos, mul_pos hv hpos⟩
+
+example : triCoord ⟨0, 0⟩ ⟨4, 0⟩ ⟨0, 4⟩ ⟨2, 2⟩ = true := by
+  rw [triCoord_iff_mem _ _ _ _ (by norm_num [cross])]
+  exact ⟨0, 1/2, 1/2, by norm_num, by norm_num, by norm_num, by norm_num, by norm_num, by norm_num⟩
+
 end Geo.Proofs.Kernel
